@@ -71,7 +71,10 @@ def trace_program(src: str, modname="__c01__"):
       if co.co_flags & 0x20 or co.co_flags & 0x80:   # generator / coroutine frames
         return
       try:
-        returns.append((co.co_qualname, frame.f_back.f_lineno, shape(arg, 0, modname)))
+        recv = None
+        if co.co_argcount and co.co_varnames and co.co_varnames[0] == "self":
+          recv = type(frame.f_locals.get("self")).__qualname__
+        returns.append((co.co_qualname, frame.f_back.f_lineno, shape(arg, 0, modname), recv))
       except Exception:  # pylint: disable=broad-except
         pass
 
